@@ -733,13 +733,16 @@ def apply_abs(a, m, v):
         a["WIN"] = 0
     elif m == "normalize_original_data":
         a["NORM"] = 1
-    elif m == "set_winter_only":
-        a["WO"] = v
-    elif m == "set_directed":
-        a["DIR"] = v
-    elif m == "set_max_delay":
-        a["MD"] = v
+    elif m in ("set_winter_only", "set_directed", "set_max_delay"):
+        a[{"set_winter_only": "WO", "set_directed": "DIR", "set_max_delay": "MD"}[m]] = v
+        if a.get("MODE") in ("link_density", "kept_threshold"):
+            a["MODE"] = "kept_threshold"      # the threshold derived from the old similarity is kept
     return a
+
+
+def observable(a):
+    """ObjectSM!Observable: does the abstract state determine the object?"""
+    return a.get("MODE") != "kept_threshold"
 
 
 INIT = {
